@@ -164,10 +164,11 @@ class Runnable(ABC):  # pylint: disable=too-many-instance-attributes
         """
         Wake up, if do was sleeping, and do things right away.
         """
-        if self.__interrupt is None:
+        interrupt = self.__interrupt  # the loop thread clears this when it ends: test and use the same object
+        if interrupt is None:
             log.warning("not running, wake ignored")
             return
-        self.__interrupt.set()
+        interrupt.set()
 
     def start(self, *, daemon=True, **kwargs):
         """
